@@ -32,6 +32,7 @@
 #include <chrono>
 #include <cstdint>
 #include <cstdio>
+#include <csignal>
 #include <cstdlib>
 #include <memory>
 #include <mutex>
@@ -642,6 +643,13 @@ static Outcome run_slow(char form, char mode, int K, bool under_lock, bool os_no
                 d << (mode == 'a' ? "notify_all" : mode == 'o' ? "notify_one" : "request_stop") << " issued by the thread that acquired the user lock while "
                   << c << " waiters were registered (inside a wait, user lock released by a slow unlock()) woke only "
                   << (sh->done.load() - done_before) << " of " << need;
+                if (auto* pool = &pika::resource::get_thread_pool("default"))
+                    d << " [pool threads: staged=" << pool->get_thread_count_staged(std::size_t(-1), false)
+                      << " pending=" << pool->get_thread_count_pending(std::size_t(-1), false)
+                      << " active=" << pool->get_thread_count_active(std::size_t(-1), false)
+                      << " suspended=" << pool->get_thread_count_suspended(std::size_t(-1), false)
+                      << " registered=" << sh->registered << " stop_requested=" << sh->ss.stop_requested() << "]";
+                if (std::getenv("C07_DEBUG_PAUSE")) { std::fprintf(stderr, "PAUSED pid=%d %s\n", (int) getpid(), d.str().c_str()); std::fflush(stderr); raise(SIGSTOP); }
                 out.fail(d.str());
                 return;
             }
